@@ -27,10 +27,9 @@ package table
 //@   requires fwwf(w)
 //@   loop 1
 //@     invariant fwwf(w) && w.generator != nil && w.baseLg == old(w.baseLg) && w.generator == old(w.generator)
-//@     invariant x == int(offset / uint64(1 << old(w.baseLg)))
-//@     invariant len(w.offsets) >= len(old(w.offsets)) && (len(w.offsets) > len(old(w.offsets)) ==> len(w.offsets) <= x)
+//@     invariant len(w.offsets) >= len(old(w.offsets)) && (len(w.offsets) > len(old(w.offsets)) ==> len(w.offsets) <= int(offset / uint64(1 << old(w.baseLg))))
 //@     invariant forall i int :: 0 <= i && i < len(old(w.offsets)) ==> w.offsets[i] == old(w.offsets)[i]
-//@     decreases x - len(w.offsets)
+//@     decreases int(offset / uint64(1 << old(w.baseLg))) - len(w.offsets)
 //@   ensures fwwf(w)
 //@   ensures [partition] w.generator != nil ==> len(w.offsets) == max(len(old(w.offsets)), int(offset / uint64(1 << w.baseLg)))
 //@   ensures [prefix] forall i int :: 0 <= i && i < len(old(w.offsets)) ==> w.offsets[i] == old(w.offsets)[i]
